@@ -49,6 +49,14 @@ ASSUMPTIONS = [
 
 PN = {1: "X", 2: "Y", 3: "Z"}
 
+# Tolerances, all RELATIVE to scale = 1 + Σ|c_P|.  The model evaluates the delivered (float) counts as exact rationals, the real code in
+# doubles: per Pauli the error is a few ulp of 1 (≤ 16 outcomes), so the estimate is within ~1e-14·Σ|c_P| of the model.  The oracle's
+# demanded value comes from the state vector directly (no counts): round-off of the amplitudes, again ~1e-15 per term.
+MODEL_RTOL = 1e-12
+ORACLE_RTOL = 1e-11
+# a single expectation from float-valued counts: cancellation leaves an ABSOLUTE error of a few ulp of 1
+FLOAT_COUNTS_ATOL = 1e-14
+
 
 # ---------------------------------------------------------------------------
 # small helpers
@@ -436,6 +444,18 @@ def k_allocators(ctx: Ctx):
 CLIFF1 = ["H", "S", "Sdag", "X", "Y", "Z"]
 
 
+def gen_angle(rng):
+    """rotation angles: generic, tiny (expectation values 1e-12 … 1e-6 of either sign), or a tiny step away from a multiple of π/2 —
+    exactness is judged relative to the size of each term, so terms whose exact expectation is tiny but not zero must be there"""
+    r = rng.random()
+    tiny = rng.choice([-1, 1]) * 10 ** rng.uniform(-12, -6)
+    if r < 0.3:
+        return tiny
+    if r < 0.45:
+        return rng.choice([0.5, 1.0, 1.5, 2.0, -0.5, -1.0]) * math.pi + tiny
+    return rng.uniform(-3.0, 3.0)
+
+
 def gen_state(rng, n, dyadic, act=None, product=False):
     qs = list(range(n)) if act is None else list(act)
     gs = []
@@ -445,7 +465,7 @@ def gen_state(rng, n, dyadic, act=None, product=False):
             a, b = rng.sample(qs, 2)
             gs.append([rng.choice(["CNOT", "CZ"]), [a, b]])
         elif not dyadic and r < 0.6:
-            gs.append([rng.choice(["RX", "RY", "RZ"]), [rng.choice(qs)], rng.uniform(-3.0, 3.0)])
+            gs.append([rng.choice(["RX", "RY", "RZ"]), [rng.choice(qs)], gen_angle(rng)])
         else:
             gs.append([rng.choice(CLIFF1), [rng.choice(qs)]])
     return gs
@@ -464,6 +484,8 @@ def gen_coef(rng, dyadic):
         return rng.choice([1e-12, -1e-12, 1e-9, 2e-10j, 1e-15])
     if r < 0.18:
         return 0.0
+    if r < 0.28:  # large coefficients (1e3 … 1e9): a small error in one expectation value is a large error of the estimate
+        return rng.choice([-1, 1]) * rng.choice([2000, 1500.25, 10.0**6, 3 * 10.0**9, float(round(10 ** rng.uniform(3, 9)))])
     if dyadic or r < 0.5:
         c = rng.randint(-16, 16) / rng.choice([1, 2, 4, 8])
         if rng.random() < 0.25:
@@ -1185,7 +1207,7 @@ def analyse(ctx: Ctx, spec, mode, reqs1, pend):
         elif st == "err":
             info["raise_witnessed"] = True
             ctx.witness("sampling_estimate.raises", f"ideal sampling, real code raises {val}", spec, {"demanded": str(want)})
-        elif not abs(val - want) <= 1e-9 * scale:
+        elif not abs(val - want) <= ORACLE_RTOL * scale:
             info["oracle_mismatch"] = True
     pend.append(info)
     return info
@@ -1338,7 +1360,7 @@ def finish_cases(ctx: Ctx, mode, reqs1, pend):
         else:
             parts = vtxt[3:].split(" ")
             mv = complex(float(Fraction(parts[0])), float(Fraction(parts[1])))
-            if st != "ok" or abs(mv - val) > 1e-9 * scale:
+            if st != "ok" or not abs(mv - val) <= MODEL_RTOL * scale:
                 ctx.disagree("value", spec, str((st, val)), str(mv))
                 if st == "err" and spec["sampler"] == "ideal" and not info.get("raise_witnessed"):
                     # the allocation succeeded and exact, non-empty frequencies were (or would have been) delivered: the model returns
@@ -1487,6 +1509,35 @@ def _counts_form(form, d):
     return dict(d)
 
 
+def gen_counts(rng, n, wide, support):
+    """count mappings: small integers / dyadics / empty / all-zero, and NEARLY BALANCED ones — outcome pairs that differ in one qubit of
+    the Pauli's support carry almost equal counts, so the expectation is tiny (1e-15 … 1e-6, either sign) but not zero: as exact integers
+    (< 2^53, every float operation of the real code is exact) or as float-valued counts of the kind an exact-frequency sampler returns.
+    returns (kind, {key: count})"""
+    kind = rng.choice(["int", "int", "dyadic", "empty", "zero", "imb_int", "imb_int", "imb_float", "imb_float"])
+    if kind == "empty":
+        return kind, {}
+    if kind.startswith("imb") and support:
+        counts = {}
+        base = rng.choice([10**6, 10**9, 2**40, 10**12, 5 * 10**14])
+        for _ in range(rng.randint(1, 3)):
+            k = rng.getrandbits(n)
+            k2 = k ^ (1 << rng.choice(support))
+            if k in counts or k2 in counts:
+                continue
+            if kind == "imb_int":
+                counts[k], counts[k2] = base + rng.randint(-3, 3), base + rng.randint(-3, 3)
+            else:
+                eps = rng.choice([-1, 1]) * 10 ** rng.uniform(-12, -6)
+                shots = float(rng.choice([100, 1000, 4096, 10**6]))
+                counts[k], counts[k2] = shots * (0.5 + eps / 2), shots * (0.5 - eps / 2)
+        return kind, counts
+    if kind.startswith("imb"):
+        kind = "int"
+    keys = list({rng.getrandbits(n) for _ in range(rng.randint(1, 6))}) if wide else rng.sample(range(1 << n), rng.randint(1, 1 << n))
+    return kind, {k: (0 if kind == "zero" else rng.randint(0, 50) if kind == "int" else rng.randint(0, 64) / 8) for k in keys}
+
+
 def _sign(k, mask):
     return 1 if bin(k & mask).count("1") % 2 == 0 else -1
 
@@ -1506,12 +1557,7 @@ def k_pauli(ctx: Ctx, n_cases: int):
         act = sorted(rng.sample(sorted({0, 31, 32, 63, 64, n - 1} & set(range(n))), rng.randint(1, 3))) if wide else None
         p = gen_pauli(rng, n, act) if rng.random() < 0.9 else ()
         lbl = pauli_label(lab_str(p)) if p else PAULI_IDENTITY
-        kind = rng.choice(["int", "int", "dyadic", "empty", "zero"])
-        if kind == "empty":
-            counts = {}
-        else:
-            keys = list({rng.getrandbits(n) for _ in range(rng.randint(1, 6))}) if wide else rng.sample(range(1 << n), rng.randint(1, 1 << n))
-            counts = {k: (0 if kind == "zero" else rng.randint(0, 50) if kind == "int" else rng.randint(0, 64) / 8) for k in keys}
+        kind, counts = gen_counts(rng, n, wide, [q for q, _ in p])
         cform = rng.choice(["dict", "dict", "counter", "proxy", "ordered"])
         route = rng.choice(["general", "general", "trivial", "custom"])
         mask = 0
@@ -1533,17 +1579,19 @@ def k_pauli(ctx: Ctx, n_cases: int):
             real = ("err", exc_name(e))
         tab = ",".join(f"{k}:{table[k]}" for k in counts) or "-"
         reqs.append(f"c08exp {1 if not p else 0} | {tab} | {enc_counts(counts)}")
-        reals.append((real, lab_str(p), counts, route, cform))
+        reals.append((real, lab_str(p), counts, route, cform, kind))
         ctx.count("pauli_exp_counts", kind)
         ctx.count("pauli_exp_route", route + ("/wide" if wide else ""))
-    for (real, ls, counts, route, cform), r in zip(reals, ctx.driver(reqs, entry=ENTRY)):
+    for (real, ls, counts, route, cform, kind), r in zip(reals, ctx.driver(reqs, entry=ENTRY)):
         ctx.traces += 1
         ctx.case(("exp", ls, str(sorted(counts.items())), route), nontrivial=bool(counts))
-        inp = {"pauli": ls, "counts": counts, "entry": route, "counts_form": cform}
+        inp = {"pauli": ls, "counts": counts, "entry": route, "counts_form": cform, "counts_kind": kind}
         if r.startswith("err "):
             if real != ("err", r[4:].strip()):
                 ctx.disagree("pauli_expectation", inp, str(real), r)
-        elif real[0] != "ok" or not abs(float(Fraction(r[3:])) - real[1]) <= 1e-12:
+        elif real[0] != "ok" or not abs(float(Fraction(r[3:])) - real[1]) <= 1e-12 * abs(float(Fraction(r[3:]))) + (
+                FLOAT_COUNTS_ATOL if kind == "imb_float" else 1e-300):
+            # relative to the size of the expectation itself: integer / dyadic counts are summed exactly by the real code
             ctx.disagree("pauli_expectation", inp, str(real), r)
             if real[0] == "ok":
                 ctx.witness("pauli_expectation.value", "the Pauli expectation is not the count-weighted mean of the reconstructed signs", inp,
@@ -1578,13 +1626,9 @@ def gen_pauli_sum_case(rng):
     if rng.random() < 0.3 and not any(not q for q, _ in coefs):
         coefs.append([[], [rng.randint(-4, 4) / 2, 0.0]])  # an identity coefficient that the set may or may not ask for
     rng.shuffle(coefs)
-    kind = rng.choice(["int", "int", "dyadic", "empty", "zero"])
-    if kind == "empty":
-        counts = []
-    else:
-        keys = list({rng.getrandbits(n) for _ in range(rng.randint(1, 6))}) if wide else rng.sample(range(1 << n), rng.randint(1, 1 << n))
-        counts = [[k, (0 if kind == "zero" else rng.randint(0, 50) if kind == "int" else rng.randint(0, 64) / 8)] for k in keys]
-    return {"kernel": "pauli_sum", "n": n, "set": pset, "coefs": coefs, "coef_form": rng.choice(["operator", "operator", "dict", "proxy"]),
+    kind, cd = gen_counts(rng, n, wide, sorted({qq for q in pset for qq, _ in q}))
+    counts = [[k, v] for k, v in cd.items()]
+    return {"kernel": "pauli_sum", "n": n, "set": pset, "coefs": coefs, "counts_kind": kind, "coef_form": rng.choice(["operator", "operator", "dict", "proxy"]),
             "counts": counts, "counts_form": rng.choice(["dict", "dict", "counter", "proxy"]),
             "set_form": rng.choice(["frozenset", "frozenset", "set", "list"]),
             "flip": (rng.choice(act) if act else rng.randrange(n)) if rng.random() < 0.3 else None}
@@ -1624,6 +1668,7 @@ def run_pauli_sum_case(ctx: Ctx, spec):
     both = [q for q in spec["set"] if any(q2 == q for q2, _ in spec["coefs"])]
     cdict = {json.dumps(q): c for q, c in spec["coefs"]}
     tot = sum((Fraction(v) for v in counts.values()), Fraction(0))
+    term_tol = 1e-300
     if not both:
         want = ("ok", 0j)
     elif not counts:
@@ -1643,6 +1688,8 @@ def run_pauli_sum_case(ctx: Ctx, spec):
                 e = Fraction(1)
             re_s += Fraction(cre) * e
             im_s += Fraction(cim) * e
+            # each term is judged relative to ITS OWN size |c_P|·|⟨P⟩|
+            term_tol += abs(complex(cre, cim)) * (1e-12 * abs(float(e)) + (FLOAT_COUNTS_ATOL if spec.get("counts_kind") == "imb_float" else 0.0))
         want = ("ok", complex(float(re_s), float(im_s)))
     ctx.traces += 1
     ctx.case(("psum", canon_spec(spec)), nontrivial=bool(both) and bool(counts))
@@ -1651,7 +1698,7 @@ def run_pauli_sum_case(ctx: Ctx, spec):
     if want[0] == "err":
         bad = real[0] != "err" or (want[1] is not None and real[1] != want[1])
     else:
-        bad = real[0] != "ok" or not abs(real[1] - want[1]) <= 1e-9 * scale
+        bad = real[0] != "ok" or not abs(real[1] - want[1]) <= term_tol
     if bad:
         ctx.witness("pauli_sum.value", "general_pauli_sum_expectation_estimator is not Σ c_P·(count-weighted mean of the signs of P) over the "
                     "labels in both the set and the coefficient mapping", spec, {"real": str(real), "demanded": str(want)})
@@ -1848,7 +1895,7 @@ def run_concurrent_case(ctx: Ctx, spec):
         ctx.count("concurrent", "skipped:zero-shot-group")
         return
     scale = 1.0 + max(sum(abs(complex(*c)) for _, c in t) for t in spec["ops"])
-    if len(real[1]) != m or any(not abs(a - b) <= 1e-9 * scale for a, b in zip(real[1], want)):
+    if len(real[1]) != m or any(not abs(a - b) <= ORACLE_RTOL * scale for a, b in zip(real[1], want)):
         ctx.witness("concurrent_sampling_estimate.value", "ideal sampling, every group sampled: the i-th estimate is not the exact expectation of "
                     "the i-th operator on the i-th state (a single operator / state being shared by all)", spec,
                     {"real": str(real[1]), "demanded": str(want)})
@@ -1955,7 +2002,7 @@ def run_history_case(ctx: Ctx, spec):
     if not (sesA.all_groups_sampled() and sesB.all_groups_sampled()):
         ctx.count("history", "skipped:zero-shot-group")
         return
-    bad = [i for i, (v, w, sc) in enumerate(zip(vals, wants, scales)) if not abs(v - w) <= 1e-9 * sc]
+    bad = [i for i, (v, w, sc) in enumerate(zip(vals, wants, scales)) if not abs(v - w) <= ORACLE_RTOL * sc]
     if bad:
         ctx.witness("sampling_estimate.history", "ideal sampling, every group sampled: an estimate made through re-used estimator / sampler / "
                     "factory / allocator / operator objects is not the exact expectation of ITS operator on ITS state", spec,
@@ -2024,7 +2071,7 @@ def run(ctx: Ctx, replay=None) -> int:
                 "objects) vs the exact expectation from the state vector; argument forms (list/tuple/generator returns, circuit objects, "
                 "computational-basis / parametric states, bare labels, integer coefficients, positional/keyword/default constructors, prior calls "
                 "on the same allocator, totals beyond 2^32, outcome keys beyond 2^64) are part of the case; real allocation / shots_map / requested (circuit, shots) list / value or exception vs the "
-                "Lean model (exact integers; values to 1e-9·(1+Σ|c|) against the model's exact rational); the demanded value is recomputed "
+                "Lean model (exact integers; values to 1e-12·(1+Σ|c|) against the model's exact rational, to 1e-11·(1+Σ|c|) against the state-vector oracle; single expectations relative to their own size); the demanded value is recomputed "
                 "from the state vector by oracle/c08ideal.py; distinct = distinct canonical inputs; nontrivial = something was allocated / requested")
     ctx.trusted = TRUSTED
     ctx.assumptions = ASSUMPTIONS
